@@ -246,7 +246,8 @@ pub fn build_script(w: &World, n: &Node, uids: &BTreeMap<*const Node, usize>) ->
                 s = s.then(Step::Attr { k: format!("a{}", i), v: format!("n{}", uid) });
             }
             for i in 0..n.events {
-                s = s.then(Step::Event { ty: format!("ev{}", i), attrs: vec![("k".into(), format!("n{}", uid))] });
+                // (the type itself starts with "wasm-": the prefix is added unconditionally; seed C04e)
+                s = s.then(Step::Event { ty: format!("wasm-ev{}", i), attrs: vec![("k".into(), format!("n{}", uid))] });
             }
             if let Some(d) = &n.data {
                 s = s.then(Step::Data { data: Some(Binary::from(d.clone())) });
@@ -397,7 +398,7 @@ impl<'a> Interp<'a> {
                     out.events.push(format!("wasm@{}[{}]", n.depth, (0..n.attrs).map(|i| format!("a{}=n{}", i, uid)).collect::<Vec<_>>().join(",")));
                 }
                 for i in 0..n.events {
-                    out.events.push(format!("wasm-ev{}@{}[k=n{}]", i, n.depth, uid));
+                    out.events.push(format!("wasm-wasm-ev{}@{}[k=n{}]", i, n.depth, uid));
                 }
                 out.data = n.data.clone();
                 self.dispatch(n.depth, children, &mut s2, &mut out)?;
